@@ -177,6 +177,10 @@ func (h *FBDNSDB) ServeDNSWithRCODE(ctx context.Context, w dns.ResponseWriter, r
 
 	// Check if this is a supported edns version
 	if a, err := edns.Version(r); err != nil { // Wrong EDNS version, return at once.
+		// edns.Version drops the question section; a reply has to echo it
+		if len(r.Question) > 0 {
+			a.Question = []dns.Question{r.Question[0]}
+		}
 		return h.writeAndLog(state, a, ecs)
 	}
 
